@@ -33,7 +33,7 @@ INFO = {
 }
 EXPECTED_PROBES = ("wrapped_line", "exact_width_line", "clear_n_with_wrapped", "clear_middle_section",
                    "overwrite_upper_section", "three_sections", "styled_line", "indented_section",
-                   "real_stream_output", "style_added_at_run_time", "flagged_write")
+                   "real_stream_output", "style_added_at_run_time", "flagged_write", "clear_n_beyond_content")
 
 WORDS = ["", "a", "ok", "<info>done</info>", "<comment>x</comment><b>y</b>", "état"]
 
@@ -107,7 +107,8 @@ def gen(S, tier):
         elif k == "clear":
             ops.append(["clear", sid, None])
         else:
-            ops.append(["clear", sid, w.randint(1, 3)])
+            # (last entry: do not clamp the count to the number of lines the section holds)
+            ops.append(["clear", sid, w.randint(1, 3), S("extension").chance(0.5)])
     return {"config": cfg, "ops": ops}
 
 
@@ -132,7 +133,7 @@ def simplify(sc):
             if op[0] != "write_line":
                 yield dict(sc, ops=sc["ops"][:i] + [["write_line", op[1], t]] + sc["ops"][i + 1:])
         if op[0] == "clear" and op[2] and op[2] > 1:
-            yield dict(sc, ops=sc["ops"][:i] + [["clear", op[1], op[2] - 1]] + sc["ops"][i + 1:])
+            yield dict(sc, ops=sc["ops"][:i] + [["clear", op[1], op[2] - 1] + op[3:]] + sc["ops"][i + 1:])
 
 
 def condition(sc, v):
@@ -258,7 +259,11 @@ def _run(sc, cfg):
             elif k == "clear":
                 n = op[2]
                 if n is not None:
-                    n = min(n, len(before_lines))
+                    if n > len(before_lines) and len(op) > 3 and op[3] and before_lines:
+                        # more lines than the section holds: everything goes, like clear()
+                        res.probe("clear_n_beyond_content")
+                    else:
+                        n = min(n, len(before_lines))
                     if n < 1:
                         continue
                     if any(len(x) > width for x in before_lines[-n:]):
